@@ -11,6 +11,7 @@ import (
 	"bytes"
 	"encoding/json"
 	"fmt"
+	"net"
 	"os"
 	"os/exec"
 	"path/filepath"
@@ -35,18 +36,18 @@ var yamlOf = map[string]map[string]string{
 	"tls": {"off": "  tls:\n    enabled: false\n", "on_files": "  tls:\n    enabled: true\n    certFile: \"certs/cert.pem\"\n    keyFile: \"certs/key.pem\"\n",
 		"i_nocert": "  tls:\n    enabled: true\n    keyFile: \"certs/key.pem\"\n", "i_nokey": "  tls:\n    enabled: true\n    certFile: \"certs/cert.pem\"\n"},
 	"timeouts": {"none": "", "all": "  timeouts:\n    read: 15\n    write: 15\n    idle: 60\n    handler: 30\n    shutdown: 30\n    backend_dial: 10\n    backend_read: 30\n    backend_idle: 90\n",
-		"zeros": "  timeouts:\n    read: 0\n    write: 0\n    idle: 0\n    handler: 0\n    shutdown: 0\n    backend_dial: 0\n    backend_read: 0\n    backend_idle: 0\n",
+		"zeros":      "  timeouts:\n    read: 0\n    write: 0\n    idle: 0\n    handler: 0\n    shutdown: 0\n    backend_dial: 0\n    backend_read: 0\n    backend_idle: 0\n",
 		"i_read_neg": "  timeouts:\n    read: -1\n", "i_dial_neg": "  timeouts:\n    backend_dial: -5\n", "i_shutdown_neg": "  timeouts:\n    shutdown: -1\n", "i_handler_neg": "  timeouts:\n    handler: -2\n"},
 	"backends": {"one": "backends:\n  - name: \"s1\"\n    address: \"http://127.0.0.1:18081\"\n",
 		"three_weighted": "backends:\n  - name: \"s1\"\n    address: \"http://127.0.0.1:18081\"\n    weight: 5\n  - name: \"s2\"\n    address: \"http://127.0.0.1:18082\"\n    weight: 2\n  - name: \"s3\"\n    address: \"http://127.0.0.1:18083\"\n    weight: 1\n",
-		"weight0":  "backends:\n  - name: \"s1\"\n    address: \"http://127.0.0.1:18081\"\n    weight: 0\n",
-		"i_none":   "backends: []\n",
-		"i_noname": "backends:\n  - address: \"http://127.0.0.1:18081\"\n", "i_noaddr": "backends:\n  - name: \"s1\"\n",
+		"weight0":        "backends:\n  - name: \"s1\"\n    address: \"http://127.0.0.1:18081\"\n    weight: 0\n",
+		"i_none":         "backends: []\n",
+		"i_noname":       "backends:\n  - address: \"http://127.0.0.1:18081\"\n", "i_noaddr": "backends:\n  - name: \"s1\"\n",
 		"i_weight_neg": "backends:\n  - name: \"s1\"\n    address: \"http://127.0.0.1:18081\"\n    weight: -1\n"},
 	"strategy": {"round_robin": "  strategy: \"round_robin\"\n", "least_connections": "  strategy: \"least_connections\"\n", "weighted_round_robin": "  strategy: \"weighted_round_robin\"\n",
 		"ip_hash": "  strategy: \"ip_hash\"\n", "ip_hash_consistent": "  strategy: \"ip_hash_consistent\"\n", "unset": "", "i_random": "  strategy: \"random\"\n"},
 	"wspool": {"off": "", "on": "  websocket_pool:\n    enabled: true\n    max_idle: 10\n    max_active: 100\n    idle_timeout_seconds: 300\n",
-		"on_zeros": "  websocket_pool:\n    enabled: true\n    max_idle: 0\n    max_active: 0\n    idle_timeout_seconds: 0\n",
+		"on_zeros":         "  websocket_pool:\n    enabled: true\n    max_idle: 0\n    max_active: 0\n    idle_timeout_seconds: 0\n",
 		"i_idle_gt_active": "  websocket_pool:\n    enabled: true\n    max_idle: 20\n    max_active: 10\n", "i_neg_idle": "  websocket_pool:\n    enabled: true\n    max_idle: -1\n",
 		"i_neg_timeout": "  websocket_pool:\n    enabled: true\n    idle_timeout_seconds: -5\n"},
 	"active": {"off": "  active:\n    enabled: false\n", "on": "  active:\n    enabled: true\n    interval: 10\n    timeout: 7\n    path: \"/\"\n",
@@ -170,6 +171,15 @@ func runBinary(cfgPath string) (string, string) {
 	}
 }
 
+func freePort() int {
+	ln, err := net.Listen("tcp", "127.0.0.1:0")
+	if err != nil {
+		return 18080
+	}
+	defer ln.Close()
+	return ln.Addr().(*net.TCPAddr).Port
+}
+
 func load(path string) (cfg *config.Config, res string, detail string) {
 	defer func() {
 		if r := recover(); r != nil {
@@ -206,7 +216,14 @@ func main() {
 		path := k.Path
 		if k.Kind == "cfg" || k.Kind == "proc" {
 			path = filepath.Join(tmp, "case.yaml")
-			os.WriteFile(path, []byte(render(k.Cfg)), 0o644)
+			y := render(k.Cfg)
+			if k.Kind == "proc" {
+				// the binary really listens: give it ports nobody else on this machine is using right now
+				y = strings.Replace(y, "  port: 8080\n", fmt.Sprintf("  port: %d\n", freePort()), 1)
+				y = strings.Replace(y, "  port: 19090\n", fmt.Sprintf("  port: %d\n", freePort()), 1)
+				y = strings.Replace(y, "  port: 19091\n", fmt.Sprintf("  port: %d\n", freePort()), 1)
+			}
+			os.WriteFile(path, []byte(y), 0o644)
 		}
 		o := map[string]any{"load": "ok", "start": "skipped", "detail": ""}
 		cfg, res, detail := load(path)
